@@ -213,7 +213,8 @@ class SuiteResult:
 def run_suite(harness, suite, seed, tier, scratch, replay=None, extra_args=None):
     """one harness run + model + spec comparison"""
     res = SuiteResult()
-    out = os.path.join(scratch, "%s-%d-%s" % (suite["name"], seed, "r" if replay else "g"))
+    tag = suite["name"] + ("-" + re.sub(r"[^A-Za-z0-9]+", "_", suite["arg"]) if suite.get("arg") else "")
+    out = os.path.join(scratch, "%s-%d-%s" % (tag, seed, "r" if replay else "g"))
     os.makedirs(out, exist_ok=True)
     cmd = [harness, "-out", out, "-seed", str(seed), "-tier", tier]
     if replay:
